@@ -32,6 +32,10 @@ type Case struct {
 	N     int    `json:"n,omitempty"`
 	Again int    `json:"again,omitempty"`
 	Fsync bool   `json:"fsync,omitempty"`
+	// Late: documents ingested into a NEW fraction after the search was started and before
+	// it is resumed (through an intermediate process that does not run the async searcher);
+	// they match the query's fields but must not show up in the result
+	Late []model.Doc `json:"late,omitempty"`
 }
 
 func genCase(t *rapid.T) Case {
@@ -58,6 +62,13 @@ func genCase(t *rapid.T) Case {
 		}
 	}
 	c.Fsync = rapid.IntRange(0, 3).Draw(t, "fsync") == 3
+	if c.N > 0 && rapid.IntRange(0, 2).Draw(t, "late") == 2 {
+		late := gen.Corpus(t, gen.CorpusOpts{MinDocs: 1, MaxDocs: 8})
+		for i := range late {
+			late[i].ID.RID |= 1 << 61 // distinct from every earlier id
+		}
+		c.Late = late
+	}
 	return c
 }
 
@@ -167,6 +178,8 @@ func runCase(c Case) (evid.Result, error) {
 		}
 	}
 	crashes := 0
+	expected := c.Corpus // the documents of the fractions that existed when the search was (re)started
+	lateIngested := false
 	var final *harness.PResp
 	r, err := p.Do(harness.PCmd{Op: "startasync", ID: id, Req: &c.R, Text: text, Aggs: c.Aggs})
 	if err == nil && !r.OK {
@@ -188,6 +201,24 @@ func runCase(c Case) (evid.Result, error) {
 		}
 		crashes++
 		res.Labels = append(res.Labels, fmt.Sprintf("crash@%s#%d", p.Crash.Crashed, min(c.N, 9)))
+		if crashes == 1 && len(c.Late) > 0 {
+			// ingest into a fresh fraction while no async searcher is running
+			q, err := harness.OpenProcAsync(dir, opts, c.Fsync, false)
+			if err != nil {
+				return res, evid.Failf("no-start", "intermediate start: %v", err)
+			}
+			if _, err := q.Do(harness.PCmd{Op: "seal"}); err != nil {
+				return res, evid.Failf("died-in-seal", "intermediate: exit %d %s", q.Exit, q.StderrTail())
+			}
+			if r, err := q.Do(harness.PCmd{Op: "bulk", Docs: c.Late, Wait: true}); err != nil || !r.OK {
+				return res, fmt.Errorf("late ingest: %v %+v", err, r)
+			}
+			if err := q.StopGraceful(); err != nil {
+				return res, evid.Failf("stop-failed", "intermediate: %v", err)
+			}
+			res.Labels = append(res.Labels, "late-fraction-before-resume")
+			lateIngested = true
+		}
 		p, err = harness.OpenProcAsync(dir, opts, c.Fsync, true)
 		if err != nil {
 			return res, evid.Failf("no-start", "after crash %d: %v", crashes, err)
@@ -203,6 +234,10 @@ func runCase(c Case) (evid.Result, error) {
 		fr, ferr := p.Do(harness.PCmd{Op: "fetchasync", ID: id, Aggs: c.Aggs})
 		if ferr == nil && fr.OK && !fr.Found {
 			res.Labels = append(res.Labels, "request-not-persisted-retry")
+			if lateIngested {
+				// the search is started anew now: the late fraction exists at its start
+				expected = append(append(model.Corpus{}, c.Corpus...), c.Late...)
+			}
 			if r, serr := p.Do(harness.PCmd{Op: "startasync", ID: id, Req: &c.R, Text: text, Aggs: c.Aggs}); serr != nil {
 				err = serr
 				continue
@@ -212,7 +247,7 @@ func runCase(c Case) (evid.Result, error) {
 		}
 		final, err = waitDone(p, id, c.Aggs)
 	}
-	if err := compare("async", final, c.Corpus, &c); err != nil {
+	if err := compare("async", final, expected, &c); err != nil {
 		return res, err
 	}
 	res.Evals = 2
@@ -231,7 +266,7 @@ func runCase(c Case) (evid.Result, error) {
 		}
 		return res, evid.Failf("died-in-async", "after final restart: exit %d %s", p.Exit, p.StderrTail())
 	}
-	if err := compare("async after restart", again, c.Corpus, &c); err != nil {
+	if err := compare("async after restart", again, expected, &c); err != nil {
 		return res, err
 	}
 	res.Evals++
